@@ -42,6 +42,12 @@ def case_texts(rec: dict):
     plain = set()
     for n in p_names:
         plain.update(n.split("."))            # 'Holder1.my_name_1': the class and the member
+    # the duplicate of a preserved function is preserved too (two preserved functions that are duplicates of each other)
+    twin = re.search(r"^def (twin_of_(\d+))\(a\):", text, re.M)
+    if twin and rec["defs"][0]["kind"] in ("func",) and 1 in pres and rec["form"] in ("direct", "fromimport", "modattr"):
+        p_names = p_names + [twin.group(1)]
+        plain.add(twin.group(1))
+        how = dict(how, **{twin.group(1): f"print({twin.group(1)}(2))"})
     form = rec["form"]
     if form == "direct":
         return text, p_names, plain, None
@@ -114,13 +120,24 @@ def _case(mods, item):
     tmp = os.path.realpath(tempfile.mkdtemp(prefix="verif-c08-"))
     try:
         Path(tmp, "lib.py").write_text(lib)
-        Path(tmp, "client.py").write_text(client)
+        client_path = Path(tmp, "client.py")
+        if via_cli == "dir":
+            Path(tmp, "app").mkdir()
+            Path(tmp, "app", "__main__.py").write_text("import app\n")
+            client_path = Path(tmp, "app", "__init__.py")
+        client_path.write_text(client)
         os.chdir(tmp)
-        res["before"] = _run_py(str(Path(tmp, "client.py")), tmp)
-        res["preserve"] = sorted(main._used_names_in_file(Path(tmp, "client.py")))
+        res["before"] = _run_py(str(client_path), tmp)
+        res["preserve"] = sorted(main._used_names_in_file(client_path))
         mp.current_process()._config["daemon"] = False        # format_files starts a pool; this fork is a leaf of the harness
         try:
-            if via_cli == "both":
+            if via_cli == "dir":
+                # `pyrefact lib.py --preserve app` with the client as app/__init__.py next to an app/__main__.py
+                import contextlib
+                import io
+                with contextlib.redirect_stdout(io.StringIO()), contextlib.redirect_stderr(io.StringIO()):
+                    main.main([str(Path(tmp, "lib.py")), "--preserve", str(Path(tmp, "app")), "--n_cores", "1"])
+            elif via_cli == "both":
                 # `pyrefact project --preserve project`: both files are formatted, each one protected by the other
                 both = [Path(tmp, "lib.py"), Path(tmp, "client.py")]
                 main.format_files(both, preserved_filenames=both, n_cores=1, max_passes=2)
@@ -137,8 +154,8 @@ def _case(mods, item):
             res["crash"] = f"{type(exc).__name__}: {exc}"
             return res
         res["formatted"] = Path(tmp, "lib.py").read_text()
-        res["client_after"] = Path(tmp, "client.py").read_text()
-        res["after"] = _run_py(str(Path(tmp, "client.py")), tmp)
+        res["client_after"] = client_path.read_text()
+        res["after"] = _run_py(str(client_path), tmp)
         return res
     finally:
         os.chdir("/")
@@ -151,9 +168,9 @@ def main(argv=None) -> int:
     t = tier()
     rng = random.Random(seed())
     known = rep.known_entries()
-    kinds = '{"func", "async", "class", "var", "annvar", "augvar", "tuple", "chain", "method", "selfless", "static", "classmeth", "classattr", "initclass"}'
+    kinds = '{"func", "async", "class", "var", "annvar", "augvar", "tuple", "chain", "method", "selfless", "static", "classmeth", "classattr", "initclass", "condinitclass"}'
     styles = '{"snake", "camel", "upper", "private"}' if t == "quick" else '{"snake", "camel", "upper", "private", "pascal"}'
-    flags = "{<<FALSE, FALSE>>, <<TRUE, TRUE>>}" if t == "quick" else "{<<FALSE, FALSE>>, <<TRUE, FALSE>>, <<FALSE, TRUE>>}"
+    flags = "{<<FALSE, FALSE>>, <<TRUE, TRUE>>, <<TRUE, FALSE>>}" if t == "quick" else "{<<FALSE, FALSE>>, <<TRUE, FALSE>>, <<FALSE, TRUE>>}"
     mc = "\n".join(["---- MODULE PreserveMC ----", "EXTENDS Preserve", f"MC_Flags == {flags}", "====", ""])
     cfg = "\n".join(["CONSTANTS", f"  Kinds = {kinds}", f"  Styles = {styles}", "  MaxDefs = 2", "  Flags <- MC_Flags",
                      '  Forms = {"direct", "fromimport", "modattr", "alias", "fromalias", "star", "factory"}', "INIT InitP", "NEXT NextP", "INVARIANT PromiseIsExactlyP",
@@ -169,7 +186,7 @@ def main(argv=None) -> int:
     others = [r for r in recs if not r["relevant"]]
     n_rel, n_oth = (1000, 150) if t == "quick" else (25000, 3000)
     pick = rng.sample(relevant, min(n_rel, len(relevant))) + rng.sample(others, min(n_oth, len(others)))
-    items = [(r, ("both" if i % 5 == 1 else i % 5 == 0)) for i, r in enumerate(pick)]
+    items = [(r, ("both" if i % 5 == 1 else "dir" if i % 5 == 2 else i % 5 == 0)) for i, r in enumerate(pick)]
     results = workers.run_tasks(_case, items, init=_init, procs=16, timeout=300, fork_per_task=True)
     n_run = n_changed = 0
     for (rec, via_cli), r in zip(items, results):
